@@ -335,7 +335,9 @@ def sig_diff(a, b, path='$'):
         for i, (p, q) in enumerate(zip(a, b)):
             if p != q:
                 return sig_diff(p, q, path + '.' + str(i))
-    sa, sb = repr(a), repr(b)
+    sa, sb = _ADDR.sub(' at 0x?', repr(a)), _ADDR.sub(' at 0x?', repr(b))      # keys / observations stay deterministic
+    if sa == sb:
+        return '%s: %s twice, with different object addresses' % (path, sa[:90])
     return '%s: %s != %s' % (path, sa[:60], sb[:60])
 
 
@@ -685,8 +687,9 @@ def _check(st, text, module, do_eval, timeout):
         if o1[1] != o2[1]:
             viol.append(('end-index', '%d then %d' % (o1[1], o2[1]), 'same end index', 'parse-not-repeatable'))
         if s1[2] != s2[2]:
-            viol.append(('structure', sig_diff(s1[2], s2[2]), 'structurally identical programs',
-                         'parse-not-repeatable'))
+            d = sig_diff(s1[2], s2[2])
+            viol.append(('structure', d, 'structurally identical programs',
+                         'object-address-in-parsed-name' if d.endswith('object addresses') else 'parse-not-repeatable'))
         if s1[2] != s1b[2]:
             viol.append(('first-tree-mutated', sig_diff(s1[2], s1b[2]),
                          'the first program is not altered by parsing again', 'parse-mutates-earlier-program'))
